@@ -66,8 +66,12 @@ func (s *KeyBuilder) Compile(template string) (*CompiledKeyBuilder, *CompilerErr
 		r := runes[i]
 
 		if r == '\\' { // Escape
-			i++
-			sb.WriteRune(unescape(runes[i]))
+			if i+1 < len(runes) {
+				i++
+				sb.WriteRune(unescape(runes[i]))
+			} else { // trailing backslash has nothing to escape, keep it as a literal
+				sb.WriteRune(r)
+			}
 		} else if r == '{' {
 			if inStatement == 0 { // starting a new token
 				if sb.Len() > 0 {
